@@ -611,6 +611,42 @@ func subFrame(d string, ip [4]byte, r *rand.Rand) string {
 	return frame(ip, other, 0x0800, 34)
 }
 
+// a frame the program does not classify although it carries the subscriber's traffic:
+// kind 0..3 = IPv4 behind 802.1Q / QinQ / legacy 0x9100 / PPPoE session, 4 = IPv6 (untagged), 5 = IPv6 behind 802.1Q
+func otherFrame(d string, ip [4]byte, kind int, r *rand.Rand) string {
+	other := hx.Pick(r, ips)
+	src, dst := other, ip
+	if d == "i" {
+		src, dst = ip, other
+	}
+	f := []byte{2, 0, 0, 0, 0, 1, 2, 0, 0, 0, 0, 2}
+	v4 := append([]byte{0x45, 0, 0, 20, 0, 0, 0, 0, 64, 17, 0, 0}, append(src[:], dst[:]...)...)
+	v6 := append([]byte{0x60, 0, 0, 0, 0, 0, 17, 64}, make([]byte, 32)...)
+	copy(v6[8+12:], src[:])
+	copy(v6[24+12:], dst[:])
+	switch kind {
+	case 0:
+		f = append(f, 0x81, 0x00, 0, 100, 0x08, 0x00)
+		f = append(f, v4...)
+	case 1:
+		f = append(f, 0x88, 0xa8, 0, 100, 0x81, 0x00, 0, 101, 0x08, 0x00)
+		f = append(f, v4...)
+	case 2:
+		f = append(f, 0x91, 0x00, 0, 100, 0x08, 0x00)
+		f = append(f, v4...)
+	case 3:
+		f = append(f, 0x88, 0x64, 0x11, 0, 0, 1, 0, 22, 0x00, 0x21)
+		f = append(f, v4...)
+	case 4:
+		f = append(f, 0x86, 0xdd)
+		f = append(f, v6...)
+	default:
+		f = append(f, 0x81, 0x00, 0, 100, 0x86, 0xdd)
+		f = append(f, v6...)
+	}
+	return hex.EncodeToString(f)
+}
+
 func genManager(r *rand.Rand) []string {
 	seq := []string{"new"}
 	clock := pickClock(r)
@@ -637,6 +673,8 @@ func genManager(r *rand.Rand) []string {
 			ip := hx.Pick(r, ips)
 			fr := subFrame(d, ip, r)
 			switch r.Intn(25) {
+			case 4, 5:
+				fr = otherFrame(d, ip, r.Intn(6), r)
 			case 0:
 				fr = frame(ip, ip, 0x86dd, 34+r.Intn(30))
 			case 1:
@@ -730,7 +768,9 @@ func genRaw(r *rand.Rand) []string {
 }
 
 // an always-backlogged subscriber (every gap earns at most the previous packet and cannot overflow the bucket):
-// the window in which the lower bound of the property is judged
+// the window in which the lower bound of the property is judged.  Packet sizes are drawn per poll; the burst is
+// taken around the largest packet (one byte less, equal, one more, just under twice) as well as comfortably above,
+// so that packets that do not fit the burst and buckets that one packet empties are exercised too.
 func genBacklogged(r *rand.Rand, long bool) []string {
 	seq := []string{"new"}
 	d := dirOf(r)
@@ -739,19 +779,29 @@ func genBacklogged(r *rand.Rand, long bool) []string {
 	for rate < 8 || rate > 100000000000 {
 		rate = pickRate(r)
 	}
-	plen := uint32(1 + r.Intn(1600))
+	maxLen := uint32(2 + r.Intn(1600))
 	if r.Intn(4) == 0 {
-		plen = uint32(1 + r.Intn(3))
+		maxLen = uint32(2 + r.Intn(3))
 	}
-	burst := 2*plen + uint32(r.Intn(5000))
+	var burst uint32
+	switch r.Intn(7) {
+	case 0:
+		burst = maxLen - 1
+	case 1:
+		burst = maxLen
+	case 2:
+		burst = maxLen + 1
+	case 3:
+		burst = 2*maxLen - 1
+	default:
+		burst = 2*maxLen + uint32(r.Intn(5000))
+	}
+	fixed := r.Intn(3) == 0 // one size for the whole sequence (always maxLen) or a fresh size per poll
 	clock := pickClock(r) >> 1
-	// through the manager when the burst is expressible there (egress honours BurstBytes), raw otherwise
-	usedMgr := false
-	if d == "e" && r.Intn(2) == 0 {
+	// through the manager (both directions honour BurstBytes) or as a raw entry
+	if r.Intn(2) == 0 {
 		seq = append(seq, fmt.Sprintf("setqos a=%s down=%d up=%d burst=%d prio=0", hex.EncodeToString(ip[:]), rate, rate, burst))
-		usedMgr = true
-	}
-	if !usedMgr {
+	} else {
 		for _, key := range [][4]byte{ip, rev(ip)} {
 			seq = append(seq, fmt.Sprintf("raw %s %s %s", d, hex.EncodeToString(key[:]), bucketBytes(uint64(burst), 0, rate, burst, 0, [3]byte{})))
 			if key == rev(key) {
@@ -761,16 +811,24 @@ func genBacklogged(r *rand.Rand, long bool) []string {
 	}
 	seq = append(seq, fmt.Sprintf("clock %d", clock))
 	fr := subFrame(d, ip, r)
-	// largest gap that keeps the subscriber backlogged: gap*rate <= plen*8e9 and plen*8e9 + gap*rate <= burst*8e9
-	maxGap := uint64(plen) * 8000000000 / rate
 	per := 8000000000 / rate // below this a poll earns less than one byte
 	n := 20 + r.Intn(60)
 	if long {
 		n = 3
 	}
+	prev := maxLen
 	for i := 0; i < n; i++ {
+		plen := maxLen
+		if !fixed {
+			plen = 1 + uint32(r.Intn(int(maxLen)))
+			if r.Intn(4) == 0 {
+				plen = maxLen
+			}
+		}
+		// largest gap that keeps the subscriber backlogged after a packet of `prev` bytes
+		maxGap := uint64(prev) * 8000000000 / rate
 		var gap uint64
-		switch r.Intn(5) {
+		switch r.Intn(6) {
 		case 0:
 			gap = maxGap
 		case 1:
@@ -781,10 +839,12 @@ func genBacklogged(r *rand.Rand, long bool) []string {
 			if per > 0 {
 				gap = per - 1
 			}
+		case 4: // exactly the line rate of this packet size
+			gap = uint64(plen) * 8000000000 / rate
 		default:
 			gap = per/2 + uint64(r.Intn(3))
 		}
-		if gap > maxGap {
+		if gap > maxGap && r.Intn(5) != 0 {
 			gap = maxGap
 		}
 		cnt := 1 + r.Intn(30)
@@ -795,6 +855,7 @@ func genBacklogged(r *rand.Rand, long bool) []string {
 			}
 		}
 		seq = append(seq, fmt.Sprintf("poll %s %s %d %d %d", d, fr, plen, cnt, gap))
+		prev = plen
 	}
 	return seq
 }
@@ -813,6 +874,10 @@ func genControl(r *rand.Rand) []string {
 			clock = adv(clock, pickGap(r, someRate)%5000000000)
 			seq = append(seq, fmt.Sprintf("clock %d", clock))
 			seq = append(seq, fmt.Sprintf("pkt %s %s %d", d, subFrame(d, ip, r), pickLen(r)))
+		}
+		if r.Intn(4) == 0 {
+			d := dirOf(r)
+			seq = append(seq, fmt.Sprintf("pkt %s %s %d", d, otherFrame(d, ip, r.Intn(6), r), pickLen(r)))
 		}
 	}
 	defpol := func(name string) {
